@@ -161,6 +161,76 @@ func tally(group, member string, n int64) {
 	linesMu.Unlock()
 }
 
+func linesEvidence() {
+	rep.Count("lines_cases", nLinesCases.Load())
+	rep.Count("lines_cases_nontrivial", nLinesNontriv.Load())
+	rep.Count("lines_source_bytes", nLinesBytes.Load())
+	rep.Count("lines_long_lines", nLinesLong.Load())
+	rep.Count("lines_entries_straddling_a_boundary", nLinesStraddle.Load())
+	rep.Count("lines_loads", nLinesLoads.Load())
+	rep.Count("lines_loads_accepted_and_compared", nLinesAccepted.Load())
+	rep.Count("lines_loads_refused_with_error", nLinesRefused.Load())
+	rep.Count("lines_queries", nLinesQueries.Load())
+	rep.Count("lines_struct_checks", nLinesStruct.Load())
+	rep.Count("lines_bait_tokens_planted", nLinesBaitsPlanted.Load())
+	rep.Count("lines_bait_tokens_at_4k_multiples", nLinesBaitAtPow2.Load())
+	rep.Count("lines_bait_probes", nLinesBaitProbes.Load())
+	rep.Count("lines_bait_probe_queries_answered_not_contained", nLinesBaitProbesFalse.Load())
+	rep.Count("lines_failing_reader_loads", nLinesFailLoads.Load())
+	rep.Count("lines_failing_reader_refused", nLinesFailRefused.Load())
+	rep.Count("lines_failing_reader_accepted_with_complete_set", nLinesFailCompleteAnyway.Load())
+	cl := map[string]any{}
+	for i, c := range lenClasses {
+		if n := classLines[i].Load() + classAccepted[i].Load() + classRefused[i].Load(); n > 0 {
+			cl[c.name] = map[string]int64{"long_lines": classLines[i].Load(), "loads_accepted_of_sources_with_this_longest_line": classAccepted[i].Load(), "loads_refused": classRefused[i].Load()}
+		}
+	}
+	rep.Extra("lines_length_classes", cl)
+	linesMu.Lock()
+	for k, v := range linesTally {
+		rep.Extra("lines_"+k, v)
+	}
+	rep.Extra("lines_sample_sources", linesSamples)
+	linesMu.Unlock()
+}
+
+// linesDemands: the monitor must have observed something in every part of the
+// new dimension (only evaluated when nothing was violated).
+func linesDemands() {
+	if nLinesCases.Load() == 0 {
+		return // replay of a case of another phase
+	}
+	for i, c := range lenClasses {
+		if c.hi > mustLoadBelow {
+			continue
+		}
+		if classAccepted[i].Load() == 0 {
+			rep.Inconclusive("lines: no source whose longest line has %s bytes was accepted by any loader (accepted=0, refused=%d): nothing compared in this length class", c.name, classRefused[i].Load())
+		}
+	}
+	linesMu.Lock()
+	defer linesMu.Unlock()
+	for _, l := range []string{"reader", "files", "plugin", "matcher"} {
+		if linesTally["accepted_loads"][l] == 0 {
+			rep.Inconclusive("lines: layer %s never accepted a source", l)
+		}
+	}
+	for _, k := range []string{"entry+comment", "comment", "blank", "blanks+entry", "blanks+entry(straddling)", "entry+blanks"} {
+		if linesTally["long_line_kinds"][k] == 0 {
+			rep.Inconclusive("lines: no long line of kind %q was generated", k)
+		}
+	}
+	for _, k := range []string{"LF", "CRLF", "source without final newline"} {
+		if linesTally["long_line_terminators"][k] == 0 {
+			rep.Inconclusive("lines: no long line with terminator class %q", k)
+		}
+	}
+	if nLinesBaitProbesFalse.Load() == 0 || nLinesBaitAtPow2.Load() == 0 || nLinesFailLoads.Load() == 0 || nLinesNontriv.Load() == 0 {
+		rep.Inconclusive("lines: a monitor observed nothing (bait probes answered false=%d, bait at 4 KiB multiples=%d, failing-reader loads=%d, nontrivial=%d)",
+			nLinesBaitProbesFalse.Load(), nLinesBaitAtPow2.Load(), nLinesFailLoads.Load(), nLinesNontriv.Load())
+	}
+}
+
 // ---- building the text ---------------------------------------------------------
 
 func (c *Case) lineBytes(ln *SrcLine) []byte {
@@ -600,7 +670,9 @@ func (e *env) runLines(c *Case, res *caseResult) {
 	judge := func(layer, variant string, order []int, m matcher, lists []*netlist.List, prelude string) *finding {
 		accepted++
 		nLinesAccepted.Add(1)
-		classAccepted[cls].Add(1)
+		if layer != "reader-fail" {
+			classAccepted[cls].Add(1)
+		}
 		tally("accepted_loads", layer, 1)
 		for _, q := range qs {
 			g := m.Match(q.addr)
@@ -640,7 +712,9 @@ func (e *env) runLines(c *Case, res *caseResult) {
 	}
 	refused := func(layer string) {
 		nLinesRefused.Add(1)
-		classRefused[cls].Add(1)
+		if layer != "reader-fail" {
+			classRefused[cls].Add(1)
+		}
 		tally("refused_loads", layer, 1)
 	}
 
